@@ -246,6 +246,7 @@ def r15g(chk, rid='R15.g'):
 
 def r15h(chk, rid='R15.h'):
     chk.rule(rid, 'the clean-up after a namespace edit, decided by evaluation: CSSStyleSheet._cleanNamespaces is evaluated on its syntax tree - with the effective mapping computed by _Namespaces.namespaces, evaluated from util.py - from every list of @namespace rules that can arise - a list of up to two rules with one rule per prefix and per URI (prefixes p, q and the default; two URIs), into which one further declaration was inserted at any position, mixed with other rules: afterwards no prefix and no URI is declared twice, the remaining @namespace rules are exactly the pairs of the mapping, and nothing but @namespace rules was removed')
+    chk.assume('R15.h: deleteRule is modelled as plain removal (its refusal for namespaces in use is R15.b); pre-states are all lists of up to two declarations satisfying the invariant plus one inserted declaration')
     import itertools
     import operator
 
